@@ -56,6 +56,12 @@ def build_test(prog: list[dict], base: int = 0):
             t.add_statement(_stmt(f"{v} = {2 + i}", v, int))
         elif k == "add":
             t.add_statement(_stmt(f"{v} = var_{base + s['o'] - 1}.add(var_{base + s['a'] - 1})", v, int))
+        elif k == "total":
+            t.add_statement(_stmt(f"{v} = var_{base + s['o'] - 1}.total", v, int))
+        elif k == "mark":
+            t.add_statement(_stmt(f"{v} = var_{base + s['o'] - 1}.mark()", v, st["module"].Switch.Mark))
+        elif k == "mode":
+            t.add_statement(_stmt(f"{v} = {st['alias']}.mode_of(var_{base + s['o'] - 1})", v, st["module"].Mode))
         else:
             t.add_statement(_stmt(f"{v} = var_{base + s['o'] - 1}.{k}()", v, str if k == "get" else type(None)))
     return t
@@ -145,6 +151,46 @@ def _run_exported(text: str) -> list[tuple[str, str, bool]]:
     return out
 
 
+def _roundtrip(text: str, workdir: str, label: str) -> list[dict]:
+    import hashlib  # noqa: PLC0415
+
+    import pynguin.ga.testcasechromosome as tcc  # noqa: PLC0415
+    import pynguin.ga.testsuitechromosome as tsc  # noqa: PLC0415
+    from pynguin.analyses.seeding import parse_seed_module  # noqa: PLC0415
+    from pynguin.testcase.export import TestSuiteWriter  # noqa: PLC0415
+
+    if not text:
+        return []
+    st = _setup()
+    if "cluster" not in st:
+        from pynguin.analyses.module import generate_test_cluster  # noqa: PLC0415
+
+        st["cluster"] = generate_test_cluster(MOD)
+
+    def h(lines) -> int:
+        return int(hashlib.sha1("\n".join(lines).encode()).hexdigest()[:7], 16)
+
+    funcs = _functions(text)
+    err, again = "", []
+    try:
+        tests = parse_seed_module(text, st["cluster"], create_assertions=True)
+        suite = tsc.TestSuiteChromosome()
+        for t in tests:
+            suite.add_test_case_chromosome(tcc.TestCaseChromosome(t))
+        if suite.size() > 0:
+            out = TestSuiteWriter().write(suite, MOD, Path(workdir) / f"rt-{label.replace('/', '-')}", project_path=SUT_DIR,
+                                          format_with_black=False)
+            again = _functions(out.read_text())
+    except Exception as ex:  # noqa: BLE001
+        err = f"{type(ex).__name__}: {ex}"[:300]
+    evs = []
+    for i, body in enumerate(funcs):
+        re_body = again[i] if i < len(again) else []
+        evs.append({"ev": "Reparse", "name": f"test_{i}", "h_exported": h(body), "h_reparsed": h(re_body) if re_body else 0,
+                    "exported": body, "reparsed": re_body, "error": err})
+    return evs
+
+
 def run_case(args) -> dict:
     """args = (case, workdir): case = {"tests": [prog, ...]}.  Returns {"ev": [...]} with one group of
     events per minimisation configuration."""
@@ -207,6 +253,9 @@ def run_case(args) -> dict:
             text = out.read_text()
         funcs = _functions(text)
         label = f"{strategy}/{direction}"
+        # C24: the exported file re-parsed by the seed parser and exported again, function by function
+        if case.get("roundtrip") and strategy in ("NONE", "CASE") and direction == "FORWARD":
+            evs.extend(dict(e, cfg=label) for e in _roundtrip(text, workdir, label))
         # C18: the exported functions run against the module (tracer off): all pass unless xfail-marked
         for name, outcome, marked in _run_exported(text):
             evs.append({"ev": "Test", "cfg": label, "name": name, "outcome": outcome, "xfail_marked": marked})
